@@ -257,7 +257,17 @@ def worker(job):
         if tg.lists:
             head_api += ["_.l = [_.a + 0, _.b + 1, ConstVal(3)]", "_.m = [[_.a + 1, _.b + 0], [_.c + 0, ConstVal(2)]]"]
             head_twin += ["l = [a + 0, b + 1, 3]", "m = [[a + 1, b + 0], [c + 0, 2]]"]
-        api_src = "\n".join(head_api + render(tree, True)) + "\n"
+        implicit = rnd.random() < 0.25
+        if implicit:
+            # context found implicitly: a helper function whose own BranchingValues is called `__`, no ctx= arguments, and a
+            # decoy `_` at module level that must not be touched
+            tg.kinds.add("implicit-context-in-function")
+            body = [ln.replace(", ctx=_", "").replace("(ctx=_)", "()").replace("_.", "__.").replace("_ = BranchingValues()", "__ = BranchingValues()")
+                    for ln in head_api + render(tree, True)]
+            api_src = "\n".join(["_ = BranchingValues()", "_.a = PrivVal(100)", "_.b = PrivVal(200)", "_.c = PrivVal(300)", "def _prog(I):"] +
+                                ["    " + ln for ln in body] + ["    return __", "RES = _prog(I)", "DECOY = _"]) + "\n"
+        else:
+            api_src = "\n".join(head_api + render(tree, True) + ["RES = _"]) + "\n"
         twin_src = "\n".join(head_twin + render(tree, False)) + "\n"
         prog = G.Prog(api_src, [], 32, 0)
         try:
@@ -291,7 +301,7 @@ def worker(job):
             if tns["NEG"]:
                 # a for loop met a negative secret bound: range(negative) is empty, the library iterates up to max
                 R.count("for_negative_bound_runs")
-                same = out.exc is None and all(getattr(out.ns["_"].vals.get(k), "value", None) == tns[k] for k in ("a", "b", "c"))
+                same = out.exc is None and all(getattr(out.ns["RES"].vals.get(k), "value", None) == tns[k] for k in ("a", "b", "c"))
                 if not same:
                     R.violation("for-loop-negative-secret-bound", "for over _range(secret < 0, max): native range is empty, the oblivious loop runs max iterations (%s)" % (
                         repr(out.exc)[:80] if out.exc else "final values differ"), **det)
@@ -310,9 +320,11 @@ def worker(job):
                     type(out.exc).__name__, str(out.exc)[:150]), **det)
                 continue
             # final tracked variables
-            ctx = out.ns["_"]
+            ctx = out.ns["RES"]
             ncmp = 0
             bad = None
+            if implicit and [plainval(out.ns["DECOY"].vals.get(k)) for k in ("a", "b", "c")] != [100, 200, 300]:
+                bad = ("_", "the module-level BranchingValues of another name was modified by a helper function's blocks")
             for name in sorted(ctx.vals):
                 if name not in tns:
                     bad = (name, "defined by the API program only")
